@@ -110,6 +110,7 @@ class Server:
         self.router = Router.get()
         self.deliveries = []      # (who, kind, idx, endpoint, status, reason)
         self.after_delivery = None
+        self.server_errors = []
         self.ctx = None           # (who, kind, idx) of the delivery being served
         self.acq = 0              # connection acquisitions so far inside it
         self.acq_counts = {}      # idx -> acquisitions of the original delivery of request idx of client A
@@ -126,6 +127,9 @@ class Server:
     async def deliver(self, who, kind, idx, method, path, body):
         from aiohttp import web
 
+        from vf import boot
+        from vf.minisql.lexer import SqlUnsupported
+
         handler, match, name = self.router.match(method, path)
         req = ops.mkreq(self.w, method, path, match=match)
         req._read_bytes = bytes(body)
@@ -136,6 +140,14 @@ class Server:
             out = Resp(resp.status, resp.reason, resp.body if isinstance(resp.body, (bytes, bytearray)) else b'', name)
         except web.HTTPException as e:
             out = Resp(e.status, e.reason, (e.text or '').encode(), name)
+        except Exception as e:  # noqa: BLE001   what aiohttp turns into "500 Internal Server Error"
+            c = e
+            while c is not None:
+                if isinstance(c, (boot.ShimGap, SqlUnsupported)):
+                    raise
+                c = c.__cause__ or c.__context__
+            out = Resp(500, 'Internal Server Error', f'{type(e).__name__}: {e}'[:300].encode(), name)
+            self.server_errors.append(f'{name}: {type(e).__name__}: {e}'[:200])
         finally:
             if who == 'A' and kind == 'orig':
                 self.acq_counts[idx] = self.acq
@@ -380,7 +392,7 @@ N_SPECS = {'j1': 1, 'g1': 1, 'j2': 2, 'j2g1': 3, 'j3g2': 5, 'j3': 3}
 
 def scenarios(tier):
     out = []
-    shapes_q = {'fast': ('j1', 'j2g1', 'j3g2'), 'multi1': ('j2', 'j2g1'), 'multi2': ('j3g2',)}
+    shapes_q = {'fast': ('j1', 'j2g1', 'j3g2'), 'multi1': ('j2', 'j2g1', 'j3g2'), 'multi2': ('j3g2',)}
     shapes_t = {'fast': ('j1', 'g1', 'j2g1', 'j3g2'), 'multi1': ('j2', 'j2g1', 'j3', 'j3g2'), 'multi2': ('j2g1', 'j3g2')}
     shapes = shapes_q if tier == 'quick' else shapes_t
     for kind in ('create', 'update'):
@@ -539,6 +551,7 @@ def run_case(scn, faults=None, inter=None, monitor=True):
         w.run(body())
 
     out['deliveries'] = srv.deliveries
+    out['server_errors'] = srv.server_errors
     out['dump'] = w.mdb.store.dump(drop=DROP)
     out['viol'] = judge(w, out, H, HB)
     return out
@@ -693,7 +706,7 @@ def levels(tier, var, k, j):
     """(modes, max duplicated requests) for: no interleaving (var None) / interleaving at a request boundary (j = 0) /
     at a transaction boundary inside a request (j > 0)."""
     if var is None:
-        return ('ILD', None)
+        return ('ILD', None) if (tier != 'quick' or k <= 5) else ('IL', None)
     if tier == 'quick':
         return ('IL', 2) if j == 0 else ('IL', 1)
     if j == 0 or k <= 5:
@@ -737,7 +750,7 @@ def _ref(scn, inter):
 def _new_stats():
     return {'runs': 0, 'deliveries': 0, 'dups_delivered': 0, 'dups_refused': {}, 'aborted_by_refused_retry': 0,
             'second_refused': {}, 'main_refused_with_interleaving': 0, 'states': set(), 'client_objects_checked': 0,
-            'completed_and_equal': 0, 'second_ok': 0, 'second_inside_request': 0, 'points_skipped': 0}
+            'completed_and_equal': 0, 'second_ok': 0, 'second_inside_request': 0, 'points_skipped': 0, 'server_errors': {}}
 
 
 def evaluate(scn, inter, vec, stats=None):
@@ -756,16 +769,16 @@ def evaluate(scn, inter, vec, stats=None):
         viols = list(r['viol'])
         if r['unsent_retry']:
             raise RuntimeError(f'transport: lost responses of requests {r["unsent_retry"]} were never re-sent ({scn}, {vec})')
-        if r['main'] == ref['main'] and r['second'] == ref['second']:
+        if r['main'] != 'ok' and r['refused_retry'] is not None:
+            if stats is not None:
+                stats['aborted_by_refused_retry'] += 1    # the server refused the re-sent request; the real client gave up
+        elif r['main'] == ref['main'] and r['second'] == ref['second']:
             d = diff_dumps(ref['dump'], r['dump'])
             if d:
                 viols.append(('retry-changes-final-state', 'the store after the history with duplicated requests differs from the '
                               'same history without duplicates: ' + '; '.join(d[:4])))
             elif stats is not None:
                 stats['completed_and_equal'] += 1
-        elif r['main'] != 'ok' and r['refused_retry'] is not None and ref['main'] == 'ok':
-            if stats is not None:
-                stats['aborted_by_refused_retry'] += 1    # the server refused the re-sent request; the real client gave up
         else:
             viols.append(('retry-changes-client-outcome', f'without duplicates: main={ref["main"]} second={ref["second"]}; '
                           f'with duplicates: main={r["main"]} second={r["second"]}'))
@@ -774,6 +787,9 @@ def evaluate(scn, inter, vec, stats=None):
         stats['deliveries'] += len(r['deliveries'])
         stats['states'] |= r['states']
         stats['client_objects_checked'] += r['n_client_objects_checked']
+        for e in r['server_errors']:
+            e = re.sub(r'\d+', 'N', e)[:120]
+            stats['server_errors'][e] = stats['server_errors'].get(e, 0) + 1
         for who, kind_, idx, name, status, reason in r['deliveries']:
             if who == 'A' and kind_ != 'orig':
                 stats['dups_delivered'] += 1
@@ -800,11 +816,13 @@ def _size(scn, inter, vec):
 def _work(item):
     tier, scn, var, ci, nc = item
     ref0 = _ref(scn, None)
-    if ref0['viol'] or ref0['main'] != 'ok':
-        return {'item': item, 'fatal': f'fault-free run of {scn} is not clean: main={ref0["main"]} {ref0["viol"][:2]}'}
+    if ref0['main'] != 'ok' and not ref0['viol']:
+        return {'item': item, 'fatal': f'fault-free submission {scn} does not complete: main={ref0["main"]} {ref0["server_errors"][:2]}'}
     stats = _new_stats()
     best, counts = {}, {}
     todo = cases(tier, scn, var, ref0)[ci::nc]
+    if ref0['main'] != 'ok':
+        todo = [(None, None)] if (var is None and ci == 0) else []   # broken without any fault: report that, explore nothing
     for inter, vec in todo:
         viols, r = evaluate(scn, inter, vec, stats)
         for sig, msg in viols:
@@ -842,7 +860,7 @@ def check(tier, seed, procs):
         for var in variants(tier):
             n = len(cases(tier, scn, var, ref0))
             n_cases[(scn, var)] = n
-            nc = max(1, min(64, n // 300))
+            nc = max(1, min(64, n // 150))
             for ci in range(nc):
                 items.append((tier, scn, var, ci, nc))
     items = par.rotate(items, seed)
@@ -855,7 +873,7 @@ def check(tier, seed, procs):
     keys = ('runs', 'deliveries', 'dups_delivered', 'aborted_by_refused_retry', 'main_refused_with_interleaving',
             'client_objects_checked', 'completed_and_equal', 'second_ok', 'second_inside_request', 'points_skipped')
     tot = dict.fromkeys(keys, 0)
-    refused, second_refused, states = {}, {}, set()
+    refused, second_refused, states, server_errors = {}, {}, set(), {}
     per_scn = {}
     for r in rows:
         st = r['stats']
@@ -865,6 +883,8 @@ def check(tier, seed, procs):
             refused[k_] = refused.get(k_, 0) + n
         for k_, n in st['second_refused'].items():
             second_refused[k_] = second_refused.get(k_, 0) + n
+        for k_, n in st['server_errors'].items():
+            server_errors[k_] = server_errors.get(k_, 0) + n
         states |= set(st['states'])
         for sig, b in r['best'].items():
             if sig not in best or b[0] < best[sig][0]:
@@ -888,7 +908,8 @@ def check(tier, seed, procs):
         'bounds': ('submissions {first update, later update (after update 1 = 2 jobs + 1 group and an abandoned update holding a reserved job id)} x '
                    'shapes (<=3 jobs with dependencies incl. parents / groups of update 1, <=2 nested job groups) x {fast path, multi-bunch with '
                    'max_bunch_size 1 or 2}; without interleaving: every assignment of {once, response lost + real retry, late second delivery, '
-                   'delivered twice in a row} to the requests; with a second client\'s fast update ('
+                   'delivered twice in a row} to the requests' + (' ({once, lost + retry, late} for the 7-request submission)' if tier == 'quick' else '')
+                   + '; with a second client\'s fast update ('
                    + ' | '.join(v for v in variants(tier) if v) + ') at every request boundary and every transaction boundary inside the '
                    'original deliveries: ' + ('<= 2 duplicated requests at request boundaries, <= 1 inside requests'
                                               if tier == 'quick' else
@@ -903,6 +924,7 @@ def check(tier, seed, procs):
         'second_client_update_accepted': tot['second_ok'],
         'second_client_update_accepted_inside_a_request': tot['second_inside_request'],
         'second_client_update_refused': second_refused,
+        'deliveries_answered_500': server_errors,
         'interleaving_points_not_enabled': tot['points_skipped'],
         'main_client_refused_with_interleaving_only': tot['main_refused_with_interleaving'],
         'client_objects_id_checked': tot['client_objects_checked'],
